@@ -14,7 +14,9 @@ RULE = ("classes over the schema-mappable fragment (Integer/Number/Float with bo
         "classes; String with length/pattern; Boolean; Enum of literals / enum classes; Array homogeneous / positional "
         "with and without additionalItems; Tuple homogeneous / positional; Set; Map with plain, constrained and non-String "
         "keys; nested classes by $ref incl. one class referenced twice and two classes under one name; StructureReference; "
-        "AllOf/AnyOf/OneOf/NotField; Optional; defaults; field-wrapper classes; 8% with Anything/NoneField), up to 3 valid "
+        "AllOf/AnyOf/OneOf/NotField; Optional and its neighbouring non-Optional shapes; defaults; field-wrapper classes; 8% with "
+        "Anything/NoneField; 1200 classes quick / 16000 thorough; 10% of them additionally with a key-renaming "
+        "_serialization_mapper = oracle-only stream, no model correspondence), up to 3 valid "
         "instances per class plus instances poked into the known regions (bool in a numeric field, None for a defaulted "
         "field), up to 24 boundary documents per class (every bound of every top-level field +-1, missing/extra key, wrong "
         "JSON type, single-point corruptions). Correspondence: model schema/definitions == real (canonical), Lean "
